@@ -56,11 +56,14 @@ def _synth_year(seed, year, p, south):
     doy = np.arange(1, n + 1)
     phase = 110 + (182 if south else 0)
     season = np.sin(2 * np.pi * (doy - phase) / 365.25)
-    tmean = p["tm"] + p["amp"] * season + rng.normal(0, 3, n)
+    tmean = p["tm"] + p["amp"] * season + rng.normal(0, 3, n) * (float(p.get("tnoise", 3.0)) / 3.0)
     if p.get("interannual"):
         # warm and cool years (own stream, so the daily noise of a date does not change)
         tmean = tmean + float(np.random.default_rng([int(seed) & 0x7FFFFFFF, int(year), 99]).normal(0, p["interannual"]))
     dtr = np.abs(rng.normal(10, 3, n)) + 1
+    if "dtr" in p:
+        # a steadier climate: given mean diurnal range, a tenth of the usual spread
+        dtr = float(p["dtr"]) + (dtr - 11.0) * 0.1
     tmin = tmean - dtr / 2
     tmax = tmean + dtr / 2
     wet = rng.random(n) < p["pwet"]
